@@ -128,9 +128,14 @@ C10_Reaches(cfg, job, pods, nokube) ==
         /\ job.kind = "Finished"
         /\ ~\E p \in Mine(pods) : Alive(p) /\ p.del = 0
 \* an undecided, unkilled, started Job keeps working: every index that has neither succeeded nor used up its attempts has a live attempt
-C10_Progress(cfg, job, pods) ==
+\* (an index whose latest attempt finished less than retryDelay ago is waiting for its retry: the drain may end inside that delay)
+C10_Progress(cfg, job, pods, now) ==
     (job.ex /\ job.started /\ ~job.del /\ ~job.adm /\ job.kill = 0 /\ job.kind # "Finished" /\ ~DecidedRec(cfg, job)) =>
-        \A i \in IdxOf(cfg) : SucceededRec(job, i) \/ ExhaustedRec(cfg, job, i) \/ \E p \in Mine(pods) : p.idx = i /\ Alive(p)
+        \A i \in IdxOf(cfg) : \/ SucceededRec(job, i) \/ ExhaustedRec(cfg, job, i)
+                               \/ (\E p \in Mine(pods) : p.idx = i /\ Alive(p))
+                               \/ (/\ RefsOf(job, i) # {}
+                                   /\ (\A r \in RefsOf(job, i) : r.fin # 0)
+                                   /\ (\E r \in RefsOf(job, i) : now < r.fin + cfg.delay))
 
 \* ---------- C11 ----------
 StateOf(k) == CASE k = "Queueing" -> "Queued" [] k = "Waiting" -> "Waiting" [] k = "Running" -> "Running" [] k = "Finished" -> "Finished" [] OTHER -> "?"
@@ -194,6 +199,6 @@ C13_TTLNotEarlyStep(cfg, job, jobN, ttlAt, userDeleted, doneAt, lastFin) ==
         \/ (doneAt # 0 /\ ttlAt >= doneAt + cfg.ttl)
         \/ (doneAt # 0 /\ lastFin # 0 /\ ttlAt >= lastFin + cfg.ttl)
         \/ (doneAt # 0 /\ lastFin = 0 /\ job.kill # 0 /\ ttlAt >= job.kill + cfg.ttl)
-C13_DeletionCompletes(job, pods, nokube) == (job.ex /\ job.del) => \E p \in Mine(pods) : p.name \in nokube
+C13_DeletionCompletes(job, pods, nokube) == (job.ex /\ job.del /\ ~job.hold) => \E p \in Mine(pods) : p.name \in nokube
 C13_TTLEventually(cfg, job, now) == (job.ex /\ job.kind = "Finished" /\ now >= job.fints + cfg.ttl) => job.del
 ====
